@@ -11,13 +11,13 @@ CLAIMS = {
    "Text and class sinks only: for EVERY Unicode scalar the bytes written to a text node are XML-legal, carry no raw < & >, and decode back to the input character (or it is dropped and is NUL/unrepresentable); every character the identifier grammar admits is attribute-safe.",
    "Legend-CSS/style sink, settings strings, root attributes and sauron's renderer are outside the claim (pom/format! are beyond Kani)."),
  "C03": ("tablesmt+kani", "§4 C03",
-   "z3 decides over all 4^8 neighbourhoods that the strokes of - | + equal the specification; CBMC decides that line merging and rectangle endorsement preserve the stroked point set (exact lattice oracle).",
+   "z3 decides over all 4^8 neighbourhoods that the strokes of - | + equal the specification; CBMC decides that line merging and rectangle endorsement preserve the stroked point set (exact lattice oracle) and that a span merge step joins exactly 8-adjacent cell groups whatever the cell order (O10.2: a cell sees its neighbours only inside its span).",
    "Grid-level composition (per-cell strokes -> merge -> endorse) is argued, not solved; the translator of the tables is validated against the real crate on random neighbourhoods each run."),
  "C04": ("kani-bmc", "§4 C04",
    "CBMC decides that one-character texts merge exactly when they sit at consecutive display columns (double-width = 2), that the merged text starts at the left cell, and that the anchor lies strictly inside the start cell.",
    "StringBuffer/CellBuffer construction, the concatenated content of merged text (format! stubbed) and the quoted-text channel are outside the claim."),
  "C05": ("kani-bmc+tablesmt", "§4 C05",
-   "z3 decides that every cell of a box border (edge characters - ~ | : ! and the box-drawing ones, sharp corners + and the box-drawing corners) emits exactly its border stroke in every neighbourhood a box admits; CBMC decides soundness (an endorsed rect has exactly its four lines as sides: no ladder, overhang or T) and completeness (every closed box within the stated sizes/offsets/orders) of endorse_rect on symbolic lattice lines, and completeness of endorse_rounded_rect on the 4 sides + 4 quarter arcs of a rounded box.",
+   "z3 decides that every cell of a box border (edge characters - ~ | : ! and the box-drawing ones, sharp corners + and the box-drawing corners) emits exactly its border stroke in every neighbourhood a box admits; CBMC decides soundness (an endorsed rect has exactly its four lines as sides: no ladder, overhang or T) and completeness (every closed box within the stated sizes/offsets/orders) of endorse_rect on symbolic lattice lines, and completeness of endorse_rounded_rect on the 4 sides + 4 quarter arcs of a rounded box; and that a span merge step joins exactly 8-adjacent cell groups (O10.2), so a box and the text inside it cannot split its border over two spans.",
    "Bounded-capacity Vec stubs, powf stubbed by exact square; that the span pipeline delivers the sides as one contact group, and soundness of the ROUNDED variant (is_rounded_rect checks perpendicularity only), are outside the claim."),
  "C06": ("kani-bmc", "§4 C06",
    "Relational harnesses: each float predicate and each absolute_position/localize gives the same answer (resp. the answer shifted) when the lattice inputs are shifted by (k,n) cells, k,n symbolic in bounds.",
